@@ -18,8 +18,10 @@ open RV.C08
 #print axioms min_spec_partial
 #print axioms max_spec_partial
 #print axioms min_spec_witness
+#print axioms max_spec_witness
 #print axioms sample_spec
 #print axioms groupconcat_spec
 #print axioms empty_group_values
 #print axioms having_filters_groups
 #print axioms query_stages
+#print axioms rewrite_correct
